@@ -308,6 +308,45 @@ def run_shared_twin(res, rng, n):
         if bad:
             res.violation("oracle", f"shared: {bad}; case {json.dumps(c, ensure_ascii=False)[:500]}", {"op": "shared", "case": c})
 
+def oracle_edited(c):
+    """one configurator object is used, an item's range is changed in place (the model is an object: an application narrows a
+    quantity), and it is used again: the solver then receives the polyhedron of the configurator as it is now"""
+    cfg = build(json.loads(json.dumps(c["cfg"])))
+    rs0 = RecordingSolver(script_fn({"kind": "raise"}))
+    observe(lambda: list(cfg.select({}, solver=rs0)))
+    for x in all_nodes(cfg):
+        if is_var(x) and x.id == c["item"]:
+            x.bounds = puan.Bounds(*c["new"])
+    rs = RecordingSolver(script_fn({"kind": "raise"}))
+    observe(lambda: list(cfg.select({}, solver=rs)))
+    want_ast = json.loads(json.dumps(c["cfg"]).replace(json.dumps({"k": "var", "id": c["item"], "b": c["old"]}), json.dumps({"k": "var", "id": c["item"], "b": c["new"]})))
+    fresh = build(want_ast).ge_polyhedron
+    if len(rs.calls) != 1:
+        return f"the solver was called {len(rs.calls)} times"
+    P = rs.calls[0][0]
+    got = (np.asarray(P).tolist(), [(v.id, v.bounds.as_tuple()) for v in P.variables])
+    want = (np.asarray(fresh).tolist(), [(v.id, v.bounds.as_tuple()) for v in fresh.variables])
+    if got != want:
+        return f"after item {c['item']} was narrowed from {c['old']} to {c['new']} on the object, the solver received {str(got)[:300]}; the configurator as it is now has {str(want)[:300]}"
+    return None
+
+def run_edited(res, rng, n):
+    for _ in range(n):
+        old, new = rng.choice([([0, 4], [1, 3]), ([0, 3], [1, 2]), ([0, 4], [0, 3]), ([1, 5], [2, 4]), ([0, 2], [1, 1])])
+        q = {"k": "var", "id": "n", "b": old}
+        rules = [{"k": "AtLeast", "v": rng.choice([1, 2]), "s": None, "ch": [q] + ([{"k": "str", "id": "a"}] if rng.random() < 0.5 else []), "id": "Q"},
+                 {"k": rng.choice(["Any", "CcAny"]), "ch": [{"k": "str", "id": "a"}, {"k": "str", "id": "b"}], "id": "R", "default": None}]
+        if rules[1]["k"] == "CcAny": rules[1]["default"] = ["a"]
+        else: del rules[1]["default"]
+        c = {"cfg": {"k": "Stingy", "ch": rules, "id": rng.choice(["cfg", None])}, "item": "n", "old": old, "new": new}
+        res.count("used_edited_in_place_used_again"); res.evaluations += 1
+        try:
+            bad = oracle_edited(c)
+        except Exception as e:
+            bad = f"raised {type(e).__name__}: {str(e)[:200]}"
+        if bad:
+            res.violation("oracle", f"edited: {bad}", {"op": "edited", "case": c})
+
 def run_shared(res, models, rng):
     for ast, m, P, cols in models:
         ids = [x["id"] for x in cols]
@@ -590,6 +629,7 @@ def run(res, tier, seed):
     run_stream(res, "select", cm, rng, 3, oracle_select, term_select, None, None)
     run_shared(res, cm, random.Random(seed * 7919 + 15))
     run_shared_twin(res, random.Random(seed * 7927 + 15), 40 if quick else 400)
+    run_edited(res, random.Random(seed * 7933 + 15), 20 if quick else 200)
     if not quick:
         k = exhaustive_small(res)
         res.evaluations += k
@@ -601,7 +641,7 @@ def run(res, tier, seed):
 def replay(payload):
     r = payload.get("replay", payload)
     op, c = r["op"], r["case"]
-    bad = oracle_shared(c) if op == "shared" else (oracle_solve if op == "solve" else oracle_select)(c)
+    bad = oracle_edited(c) if op == "edited" else oracle_shared(c) if op == "shared" else (oracle_solve if op == "solve" else oracle_select)(c)
     print(op, json.dumps(c, ensure_ascii=False)[:2000])
     print("property holds on this input" if not bad else "FAILS: " + bad)
     return 1 if bad else 0
